@@ -59,6 +59,9 @@ type ctx struct {
 	ls    *listenSession
 
 	cur kase // the case being executed (for panic reports)
+
+	viol      map[string]*found
+	violOrder []string
 }
 
 func newCtx(r *vk.Run, z *zoneRef) *ctx {
@@ -79,10 +82,42 @@ func (c *ctx) say(format string, a ...any) {
 	}
 }
 
+// found is one violation key as seen by this process: the first failing case, and the first
+// failing case in the years 2000..2068 if there is one (preferred as the recorded example: a
+// present-day date is a more useful replay than an 1847 local-mean-time change).
+type found struct {
+	Key    string `json:"key"`
+	What   string `json:"what"`
+	Case   kase   `json:"case"`
+	Modern bool   `json:"modern"`
+	Count  int64  `json:"count"`
+}
+
 func (c *ctx) violation(key, what string, k kase) {
 	k.Zone = c.z.name
 	c.say("  => VIOLATION %s: %s", key, what)
-	c.r.Violation(key, fmt.Sprintf("[TZ=%s] %s", c.z.name, what), "case", k)
+	what = fmt.Sprintf("[TZ=%s] %s", c.z.name, what)
+	modern := k.Y >= 2000 && k.Y <= 2068
+	if f, ok := c.viol[key]; ok {
+		f.Count++
+		if modern && !f.Modern {
+			f.What, f.Case, f.Modern = what, k, true
+		}
+		return
+	}
+	if c.viol == nil {
+		c.viol = map[string]*found{}
+	}
+	c.viol[key] = &found{Key: key, What: what, Case: k, Modern: modern, Count: 1}
+	c.violOrder = append(c.violOrder, key)
+}
+
+func (c *ctx) found() []found {
+	out := []found{}
+	for _, key := range c.violOrder {
+		out = append(out, *c.viol[key])
+	}
+	return out
 }
 
 // ---------------------------------------------------------------------------------------------
@@ -136,10 +171,23 @@ var dateFnsExtra = []struct{ fn, via string }{
 	{"Date.UnmarshalJSON", "json.Unmarshal"},
 }
 
-// libDate runs one of the date constructors/decoders of the library on the civil day y-m-d.
-func libDate(fn, via string, y, m, d int) dateObs {
-	wire := refDateWire(y, m, d)
-	text := refDateText(y, m, d)
+// dayRef is the reference rendering of one civil day (computed once per day, used by all functions).
+type dayRef struct {
+	y, m, d int
+	text    string  // YYYY-MM-DD
+	wire    [4]byte // BCD YYYYMMDD
+	js      []byte  // "YYYY-MM-DD" with the quotes
+}
+
+func mkDay(y, m, d int) *dayRef {
+	r := &dayRef{y: y, m: m, d: d, text: refDateText(y, m, d), wire: refDateWire(y, m, d)}
+	r.js = []byte(`"` + r.text + `"`)
+	return r
+}
+
+// libDate runs one of the date constructors/decoders of the library on a civil day.
+func libDate(fn, via string, day *dayRef) dateObs {
+	wire, text, y, m, d := day.wire, day.text, day.y, day.m, day.d
 	switch fn {
 	case "ToDate":
 		return observeDate(types.ToDate(y, time.Month(m), d))
@@ -187,9 +235,9 @@ func libDate(fn, via string, y, m, d int) dateObs {
 		var dt types.Date
 		var err error
 		if via == "json.Unmarshal" {
-			err = json.Unmarshal([]byte(`"`+text+`"`), &dt)
+			err = json.Unmarshal(day.js, &dt)
 		} else {
-			err = dt.UnmarshalJSON([]byte(`"` + text + `"`))
+			err = dt.UnmarshalJSON(day.js)
 		}
 		if err != nil {
 			return dateObs{err: err.Error()}
@@ -207,20 +255,24 @@ func (c *ctx) dateCause(y, m, d int) string {
 }
 
 // checkDate runs fn on y-m-d and judges it. The day is exempt iff it has no instant in the zone.
-func (c *ctx) checkDate(fn, via string, y, m, d int) {
-	k := kase{Fn: fn, Via: via, Y: y, M: m, D: d}
-	c.cur = k
-	o := libDate(fn, via, y, m, d)
-	c.cnt.Evals++
-	want := refDateText(y, m, d)
-	wire := refDateWire(y, m, d)
-	c.say("%s(%s) via %s in %s: library = %04d-%02d-%02d String=%q wire=%x json=%s err=%q | reference = %s wire=%x (00:00 exists: %v)",
-		fn, want, via, c.z.name, o.y, o.m, o.d, o.text, o.wire, o.js, o.err, want, wire, c.z.midnight(y, m, d))
+func (c *ctx) checkDate(fn, via string, y, m, d int) { c.checkDay(fn, via, mkDay(y, m, d)) }
 
-	if o.err == "" && o.y == y && o.m == m && o.d == d && o.text == want && bytes.Equal(o.wire, wire[:]) && o.js == `"`+want+`"` {
+func (c *ctx) checkDay(fn, via string, day *dayRef) {
+	y, m, d := day.y, day.m, day.d
+	o := libDate(fn, via, day)
+	c.cnt.Evals++
+	want := day.text
+	wire := day.wire
+	if c.verbose {
+		c.say("%s(%s) via %s in %s: library = %04d-%02d-%02d String=%q wire=%x json=%s err=%q | reference = %s wire=%x (00:00 exists: %v)",
+			fn, want, via, c.z.name, o.y, o.m, o.d, o.text, o.wire, o.js, o.err, want, wire, c.z.midnight(y, m, d))
+	}
+	if o.err == "" && o.y == y && o.m == m && o.d == d && o.text == want && bytes.Equal(o.wire, wire[:]) && o.js == string(day.js) {
 		c.cnt.Judged++
 		return
 	}
+	k := kase{Fn: fn, Via: via, Y: y, M: m, D: d}
+	c.cur = k
 	if !c.z.midnight(y, m, d) && !c.z.dayHasInstant(y, m, d) {
 		c.cnt.Unjudged++ // the zone skipped this calendar day entirely: exempt
 		c.say("  (exempt: %s has no instant in %s)", want, c.z.name)
@@ -531,7 +583,7 @@ func (c *ctx) traceDay(n int64) string {
 	y, m, d := fromOrdinal(n)
 	out := refDateText(y, m, d) + ":"
 	for _, f := range dateFns {
-		o := libDate(f.fn, f.via, y, m, d)
+		o := libDate(f.fn, f.via, mkDay(y, m, d))
 		out += fmt.Sprintf(" %04d-%02d-%02d/%s/%x/%s", o.y, o.m, o.d, o.text, o.wire, o.err)
 	}
 	sw := refSysDateWire(y, m, d)
